@@ -82,9 +82,15 @@ META = {
             "(no client / RPC error never valid and never on the wire, answered RPC valid for exactly one TTL, free space never underflows), driven through the real informers and the real PublishMetric (suite glue); "
             "a malformed message changes nothing; a failing peerset function skips the round and keeps the pending alert; cadence measured on the real loops with millisecond TTLs (corpus cases in quick, random cases in thorough); "
             "round 8c: the loop body of Cluster.pushInformerMetrics is translated (go/ast) into a program the model interprets (which condition takes the retry-sooner branch, both divisors); "
-            "theorems: the shipped body re-arms at TTL/2 after an invalid metric that PublishMetric dropped with a nil error, so after ONE failed informer RPC the next attempt is not before the expiry "
-            "of the last delivered metric (refutation shipped_retries_late), a body that treats the dropped metric as an error retries strictly before it (every TTL > 0); cadence lines i<k> reproduce it with the real "
-            "disk.Informer (k-th RepoStat fails), the real loop and the real PublishMetric: late=1 on today's tree (proposed known finding, notes Round 8c), and the driver compares every informer cadence line with the nominal schedule of the regenerated body.",
+            "today's body (since the repair F45 in /repo 1189798, regenerated as [send, discard=err, err?retry/4, rearm/2]) treats a metric that PublishMetric would drop as an error and retries at TTL/4: "
+            "theorem repaired_retries_in_time — after ONE failed informer RPC the next attempt is strictly before the expiry of the last delivered metric (every TTL > 0); the PRE-FIX body "
+            "[send, err?retry/4, rearm/2] (what a revert reintroduces) re-armed at TTL/2 after the dropped metric: refutation shipped_retries_late; gen_rearm_known accepts only these two bodies (fail closed); "
+            "cadence lines i<k> drive the real disk.Informer (k-th RepoStat fails), the real loop and the real PublishMetric (late=0 on today's tree, late=1 before the repair), "
+            "and the driver compares every informer cadence line with the nominal schedule of the regenerated body; "
+            "round 8 final: ONE history over the receive path, the store, the clock, the checker and the channel (namespace Hist: payloads decoded, malformed / other names ignored, latest per peer with its expiry instant, "
+            "clock advances, peerset changes and Watch ticks (CheckPeers(peerset), round skipped when the peerset function fails), CheckPeers with any lists deciding expiry at the clock of the check, alert with today's count-after-send order, drains of any size): theorem history_reported_once_holds for every such history and capacity "
+            "— no alert is enqueued twice, only reported metrics are forgotten (forgotten => enqueued exactly once, before), every enqueued alert names the peer's latest metric at a check / tick whose list (the peerset of that tick) names the peer, with its expiry instant passed — "
+            "plus the liveness step history_expired_visited_enqueued (expired + room => enqueued); the join with the multi-name model (windows, accrual oracle, CheckAll, removals, the query-side peerset filter) is still missing (notes, Round 8 final).",
     "note": "Trusted: Lean kernel (+propext, Classical.choice, Quot.sound), the hand-written model/spec, the Go harness. The phi float arithmetic is an oracle.",
     "technique": "Lean 4 invariants over histories + differential correspondence with the real monitor code",
 }
